@@ -20,7 +20,8 @@ Judge(rec) ==
     ELSE "ok"
   ELSE IF rec.op = "merge" THEN     \* whole file: primary + supplemental TEXT, ANALYSIS
     LET p == Outcome(rec.q, rec.d, FALSE)
-        s == Outcome(rec.sq, rec.d, TRUE)
+        s == IF rec.sn > Len(rec.sq) THEN [k |-> "err"]          \* announced ($BEGINSTEXT..$ENDSTEXT), not (wholly) in the file
+             ELSE Outcome(rec.sq, rec.d, TRUE)
         a == Outcome(rec.aq, rec.d, TRUE)
     IN IF p.k = "err" \/ s.k = "err" THEN (IF rec.k = "err" THEN "ok" ELSE "C14.accepted-illformed")
        ELSE IF rec.k # "ok" THEN "C14.refused-wellformed"
